@@ -13,8 +13,13 @@ _MISSB = re.compile(rb"MISS:([a-z0-9]+):([0-9a-f]*);")
 
 class Driver:
     def __init__(self):
+        exe = os.path.join(LEAN_DIR, ".lake", "build", "bin", "mhldriver")
+        # the compiled driver (built by `lake build mhldriver`, kept up to date by every check) when present,
+        # the interpreter otherwise; both run the same definitions
+        cmd = [exe] if os.path.exists(exe) and not os.environ.get("VERIF_INTERPRETED_DRIVER") else ["lake", "env", "lean", "--run", "Driver.lean"]
+        self.compiled = cmd[0] == exe
         self.p = subprocess.Popen(
-            ["lake", "env", "lean", "--run", "Driver.lean"],
+            cmd,
             cwd=LEAN_DIR,
             stdin=subprocess.PIPE,
             stdout=subprocess.PIPE,
